@@ -5,6 +5,8 @@
 import JsonataModel.Model.Eval
 import JsonataModel.Model.Strings
 import JsonataModel.Model.Regex
+import JsonataModel.Model.Number
+import JsonataModel.Model.FormatNumber
 
 namespace Jsonata
 open NumSys
@@ -526,6 +528,55 @@ def optStrL : Option (Val N) → Option (List Char)
   | some (.str s) => some s.toList
   | _ => none
 
+/-! ### numbers (jlib/number.go) -/
+
+/-- jlib.Round: the shortest decimal of x rounded half-even at the p-th fraction digit -/
+def libRound (x : N) (p : Int) : N :=
+  if beq x (ofInt 0) then ofInt 0
+  else if p ≥ 0 && beq x (trunc x) then x
+  else
+    let me := toDec x
+    if isInf (ofDec me.1 (me.2 + p) : N) then x
+    else
+      let k := Num.roundScaled me.1 me.2 p
+      if k == 0 then ofInt 0 else ofDec k (-p)
+
+/-- jlib.Number on a string -/
+def libNumberStr (s : String) : Except Err (Val N) :=
+  if Num.reNumber s.toList then
+    let me := Num.decOfText s.toList
+    let x : N := ofDec me.1 me.2
+    if isInf x then .error (.lib "number")
+    else if me.1 == 0 && s.toList.head? == some '-' then .ok (.num (neg (ofInt 0)))
+    else .ok (.num x)
+  else .error (.lib "number")
+
+/-- jlib.FormatBase -/
+def libFormatBase (x : N) (base : Option N) : Except Err (Val N) :=
+  let radix : Int := match base with | some b => toInt (libRound b 0) | none => 10
+  if radix < 2 || radix > 36 then .error (.lib "formatBase")
+  else .ok (.str (String.ofList (Num.toBase (toInt (libRound x 0)) radix.toNat)))
+
+/-- jlib.FormatNumber: options object, then jxpath.FormatNumber on the exact decimal -/
+def libFormatNumber (x : N) (pic : String) (opts : Option (Val N)) : Except Err (Val N) :=
+  let fmt? : Option FmtNum.DecFmt :=
+    match opts with
+    | none => some {}
+    | some (.obj kvs) =>
+      kvs.foldl (fun acc kv => match acc, kv.2 with
+        | some f, .str v => FmtNum.updateFmt f kv.1 v.toList
+        | _, _ => none) (some {})
+    | some _ => none
+  match fmt? with
+  | none => .error (.lib "formatNumber")
+  | some f =>
+    if isNaN x || isInf x then .error (.unsupported "formatNumber of a non-finite number")
+    else
+      let me := toDec x
+      match FmtNum.formatNumber me.1 me.2 (lt x (ofInt 0)) pic.toList f with
+      | some out => .ok (.str (String.ofList out))
+      | none => .error (.lib "formatNumber")
+
 /-! ### regular-expression consumers (jlib/string.go) -/
 
 /-- the object a match callable returns (callable.go matchCallable.Call) -/
@@ -679,6 +730,20 @@ def builtinImpl (r : Rec N) (name : String) (args : List (Option (Val N))) :
       if f.isFn then libReplaceRx r s f rep (optInt lim) else libErr "replace"
   | "abs", [some (.num x)] => pure (some (.num (if lt x (ofInt 0) then neg x else if beq x (ofInt 0) then ofInt 0 else x)))
   | "floor", [some (.num x)] => pure (some (.num (floor x)))
+  | "ceil", [some (.num x)] => pure (some (.num (ceil x)))
+  | "round", [some (.num x), p] => pure (some (.num (libRound x ((optInt p).getD 0))))
+  | "sqrt", [some (.num x)] => if lt x (ofInt 0) then libErr "sqrt" else pure (some (.num (sqrt x)))
+  | "power", [some (.num x), some (.num y)] =>
+      let r := pow x y
+      if isInf r || isNaN r then libErr "power" else pure (some (.num r))
+  | "number", [some (.bool b)] => pure (some (.num (ofInt (if b then 1 else 0))))
+  | "number", [some (.num x)] => pure (some (.num x))
+  | "number", [some (.str s)] => match libNumberStr s with | .ok v => pure (some v) | .error e => throw e
+  | "formatNumber", [some (.num x), some (.str pic), opts] =>
+      match libFormatNumber x pic opts with | .ok v => pure (some v) | .error e => throw e
+  | "formatBase", [some (.num x), b] =>
+      match libFormatBase x (match b with | some (.num y) => some y | _ => none) with
+      | .ok v => pure (some v) | .error e => throw e
   | "sum", [some v] => match libSum v with | .ok x => pure x | .error e => throw e
   | "max", [some v] => match libMax v with | .ok x => pure x | .error e => throw e
   | "min", [some v] => match libMin v with | .ok x => pure x | .error e => throw e
